@@ -119,10 +119,14 @@ def c04(tier):
     w = dict(add=22, remove=10, change=14, fetch=2, unfetch=1, get=8, route=14, reply=6, advance=1, connect=2, disconnect=3, misc=1)
     cases = (mk("bus", 500 if q else 12000, s, "default", n_ops=90, opts=dict(weights=w, rich=True))
              + mk("bus", 300 if q else 10000, s + 1, "tiny", n_ops=90, opts=dict(weights=w, rich=True))
-             + mk("bus", 150 if q else 6000, s + 2, "default", n_ops=220, opts=dict(weights=w, colliding=45, rich=True)))
+             + mk("bus", 150 if q else 6000, s + 2, "default", n_ops=220, opts=dict(weights=w, colliding=45, rich=True))
+             # a dense run of occupied slots (2 paths for each of 40 consecutive home buckets): insertions have to displace entries
+             + mk("cluster", 40 if q else 1500, s + 3, "default", cluster=(40, 2, "low"))
+             + mk("cluster", 30 if q else 1000, s + 4, "default", cluster=(40, 2, "wrap"))
+             + mk("cluster", 30 if q else 1000, s + 5, "default", cluster=(48, 3, "end")))
     res = run_cases(cases)
     return report("C04", "exploration", res,
-                  "random sequences of add/remove/change/set/call/get by several peers over path strings incl. empty, long, non-ASCII and hash-colliding ones and "
+                  "random sequences of add/remove/change/set/call/get by several peers over path strings incl. empty, long, non-ASCII, hash-colliding ones and dense runs of neighbouring home buckets (fill until refused / thin out / refill, also across the end of the table) and "
                   "arbitrary JSON values; after every response the reference map predicts success/error (resource refusals only where a limit can be in play); a "
                   "fetch-all observer's replica and get results are compared with the reference map at every quiescent point; distinct = (method, expected class, "
                   "observed class) and get/replica size signatures",
@@ -322,7 +326,7 @@ def c15(tier):
     cases += mk("reclaim", 60 if q else 2000, s + 30, "lowheap", mode="lowheap", n_ops=120)
     res = cres + run_cases(cases)
     return report("C15", "fault_enumeration", res,
-                  "corpus of 7 scripted sessions (every request type, raw/unix/WebSocket handshakes, routed requests answered / timed out / orphaned by caller and "
+                  "corpus of 8 scripted sessions (every request type, raw/unix/WebSocket handshakes, routed requests answered / timed out / orphaned by caller and "
                   "owner disconnects, fetch table growth, failed HTTP upgrades, fragmented and close frames); a clean run counts the N allocations of the script "
                   "(cjet_malloc/cjet_calloc incl. cJSON), then allocation number n fails for every n in 0..N-1 (thorough; every 2nd, offset by the seed, in quick) "
                   "plus random 2-5 consecutive failures, plus bus histories under a 256 KiB heap cap that ordinary adds reach; oracle: sanitizers, at most one response per request, only the connection whose processing hit the "
@@ -381,14 +385,22 @@ def c13(tier):
     cases += mk("http", 60 if q else 1000, s + 2, "smallbuf", mode="mutate", count=60)
     cases += mk("http", 40 if q else 1000, s + 3, "default", lane="msan", mode="mutate", count=60)
     cases += mk("http", 2 if q else 20, s + 4, "default", lane="msan", mode="templates")
-    res = run_cases(cases)
+    # "leaves no memory behind" also when the daemon runs out of memory half-way through such an exchange: every allocation of a
+    # session that consists of refused exchanges only fails once
+    cres = run_cases([dict(kind="allocfail", seed=1, config="default", params=dict(script="http-refused"))])
+    nalloc = cres[0].alloc_count or 0
+    for i in range(nalloc):
+        cases.append(dict(kind="allocfail", seed=i, config="default", params=dict(script="http-refused", nth=i)))
+        if not q:
+            cases.append(dict(kind="allocfail", seed=i, config="default", params=dict(script="http-refused", nth=i, count=3)))
+    res = cres + run_cases(cases)
     return report("C13", "exploration", res,
                   "valid upgrade templates (header order/case/extra headers/several protocol tokens/target suffix) must be answered 101 with the right digest and "
                   "the jet subprotocol; requests invalid by construction (wrong path/method/version, missing or wrong Upgrade/Connection/key/version 13/"
                   "subprotocol, malformed or over-long lines, ...) must never be answered 101 and must get an HTTP error status or a close; every template "
                   "truncated at EVERY byte then FIN/RST, corrupted at EVERY position (one byte, seeded value), random multi-byte mutations; after each exchange "
                   "the connection must be released; at the end peer count, heap, descriptors, registrations are compared with the baseline and SIGTERM must "
-                  "exit cleanly under ASan/LSan; distinct = (class, label, status, closed) signatures",
+                  "exit cleanly under ASan/LSan; plus a session of refused exchanges in which allocation number n fails, for every n; distinct = (class, label, status, closed) signatures",
                   t0, tier, SIM_ASSUME, min_events={"exchanges": 2000, "truncation_points": 300, "corruption_points": 300})
 
 
